@@ -322,3 +322,14 @@ Fixpoint list_eqb {A} (eqb : A -> A -> bool) (a b : list A) : bool :=
 
 (** A Go string or slice holds fewer than 2^63 elements ([len] is an [int]). *)
 Definition go_sized {A} (l : list A) : Prop := go_len l < two63z.
+
+(** [errcode.IsNotFound] etc.: the class of the error ([errcode.Of]). *)
+Definition errcode_Is (k : string) (e : go_error) : bool :=
+  match e with Some (GoErr k' _) => String.eqb k' k | None => false end.
+
+Lemma Z_of_N_eqb (a b : N) : (Z.of_N a =? Z.of_N b) = (a =? b)%N.
+Proof. lia. Qed.
+Lemma Z_of_N_ltb (a b : N) : (Z.of_N a <? Z.of_N b) = (a <? b)%N.
+Proof. lia. Qed.
+Lemma Z_of_N_leb (a b : N) : (Z.of_N a <=? Z.of_N b) = (a <=? b)%N.
+Proof. lia. Qed.
